@@ -206,12 +206,32 @@ class Emitter {
 	{
 		if (!S)
 			return nullptr;
+		bool voidcast = false;
 		if (const Expr *E0 = dyn_cast<Expr>(S)) {
-			// remember an explicit cast to a record pointer: keeps
-			// "void *arg -> T *" recoverable
+			// an explicit (void) cast documents a deliberately
+			// discarded result: keep it visible
+			const Expr *P = E0;
+			while (auto *PE = dyn_cast<ParenExpr>(P))
+				P = PE->getSubExpr();
+			if (auto *CC = dyn_cast<CStyleCastExpr>(P))
+				if (CC->getType()->isVoidType())
+					voidcast = true;
 			const Expr *E = strip(E0);
 			S             = E;
 		}
+		if (voidcast) {
+			json::Object v;
+			v["k"]  = "un";
+			v["op"] = "(void)";
+			v["e"]  = serInner(S, parentLine, parentMac);
+			return std::move(v);
+		}
+		return serInner(S, parentLine, parentMac);
+	}
+
+	json::Value
+	serInner(const Stmt *S, unsigned parentLine, const std::string &parentMac)
+	{
 		if (S != curRoot) {
 			auto it = elemPos.find(S);
 			if (it != elemPos.end()) {
@@ -582,7 +602,7 @@ class Emitter {
 						curRoot = nullptr;
 					else
 						curRoot = S;
-					els.push_back(ser(S, 0, ""));
+					els.push_back(ser(CS->getStmt(), 0, ""));
 					curRoot = nullptr;
 				} else {
 					els.push_back(nullptr);
